@@ -2,6 +2,7 @@ package props
 
 import (
 	"fmt"
+	"math"
 	"runtime"
 	"sync"
 	"time"
@@ -484,9 +485,44 @@ func c04seqSweep(c *core.Ctx, first int) {
 	}
 }
 
+// c04floatValues: a stored value is what Load returns - also when the new value compares
+// == to the old one but is not the same value (+0.0 over -0.0 and back), on a key in
+// the read map (lock-free store) and on a dirty-only key (locked store).
+func c04floatValues(c *core.Ctx) bool {
+	nz := math.Copysign(0, -1)
+	var m sync2.Map[int, float64]
+	var ms sync2.Map[int, [2]float64]
+	m.Store(1, 0.0)
+	ms.Store(1, [2]float64{0, 1})
+	m.Range(func(int, float64) bool { return true }) // promote: key 1 now lives in the read map
+	ms.Range(func(int, [2]float64) bool { return true })
+	m.Store(2, nz) // dirty-only key
+	for i, want := range []float64{nz, 0.0, nz} {
+		m.Store(1, want)
+		ms.Store(1, [2]float64{want, 1})
+		m.Store(2, -want)
+		v1, _ := m.Load(1)
+		v2, _ := m.Load(2)
+		a1, _ := ms.Load(1)
+		if math.Signbit(v1) != math.Signbit(want) || math.Signbit(v2) != math.Signbit(-want) || math.Signbit(a1[0]) != math.Signbit(want) {
+			c.Violate("seq:Store:signed-zero-lost", fmt.Sprintf("round %d: Store of %v over its other zero: Load gives %v (read-map key), %v (dirty-only key, wanted %v), %v (array value)", i+1, want, v1, v2, -want, a1), nil)
+			return false
+		}
+		if old, loaded := m.LoadOrStore(1, 5); !loaded || math.Signbit(old) != math.Signbit(want) {
+			c.Violate("seq:LoadOrStore:signed-zero-lost", fmt.Sprintf("LoadOrStore on a key holding %v returned (%v,%v)", want, old, loaded), nil)
+			return false
+		}
+	}
+	c.Count("seq_float_value_checks", 1)
+	return true
+}
+
 func c04seq(c *core.Ctx) {
 	r := c.R
 	hooksOff()
+	if c.Index == 8 && !c04floatValues(c) {
+		return
+	}
 	if c.Index < 8 {
 		c04seqSweep(c, int(c.Index))
 		return
